@@ -4,7 +4,7 @@
 From Coq Require Import List Arith Bool Lia Permutation ZArith.
 From LMBase Require Import Res ListX.
 From LMDense Require Import DenseModel DenseProofs DenseReg DenseRegProofs DenseCheck DenseCheckProofs.
-From LMDense Require Import DenseSteps DenseStepsProofs.
+From LMDense Require Import DenseSteps DenseStepsProofs DenseF32 DenseF32Proofs GenDense.
 Import ListNotations.
 
 (* Stride: at least the column count, a whole number of alignment units, minimal. *)
@@ -83,6 +83,30 @@ Proof.
   - exact (t_resize_rows dflt C C (le_n C) t rows).
   - intros r. exact (t_resize_keeps dflt C C (le_n C) t rows r).
   - intros r. exact (t_resize_new dflt C C (le_n C) t rows r).
+Qed.
+
+(* Shrink, then grow again (any amounts): the rows that were cut off and are exposed again hold
+   the default value, not what they held before the shrink; the surviving rows are untouched.
+   (Vec::resize_with truncates, then pushes fresh default rows; through
+   C19_regfile_refines_table the struct does the same whatever its capacity.) *)
+Theorem C19_shrink_then_grow :
+  forall (T : Type) (dflt : T) (C : nat) (t : @table T) (r1 r2 : nat),
+    r1 <= length t -> r1 <= r2 ->
+    t_resize dflt C (t_resize dflt C t r1) r2 = firstn r1 t ++ repeat (repeat dflt C) (r2 - r1) /\
+    (forall r, r1 <= r -> r < r2 -> nth r (t_resize dflt C (t_resize dflt C t r1) r2) [] = repeat dflt C) /\
+    (forall r, r < r1 -> nth r (t_resize dflt C (t_resize dflt C t r1) r2) [] = nth r t []).
+Proof.
+  intros T dflt C t r1 r2 H1 H2.
+  assert (L1 : length (t_resize dflt C t r1) = r1) by exact (t_resize_rows dflt C C (le_n C) t r1).
+  split; [|split].
+  - unfold t_resize at 1. rewrite L1.
+    assert (E : t_resize dflt C t r1 = firstn r1 t).
+    { unfold t_resize. replace (r1 - length t) with 0 by lia. cbn [repeat]. apply app_nil_r. }
+    rewrite E. rewrite firstn_all2 by (rewrite firstn_length; lia). reflexivity.
+  - intros r Ha Hb. apply (t_resize_new dflt C C (le_n C) (t_resize dflt C t r1) r2 r); lia.
+  - intros r Hr.
+    rewrite (t_resize_keeps dflt C C (le_n C) (t_resize dflt C t r1) r2 r) by lia.
+    apply (t_resize_keeps dflt C C (le_n C) t r1 r); lia.
 Qed.
 
 (* Equality and clone depend on the logical cells only. *)
@@ -233,55 +257,179 @@ Example C19_iteration_steps_nonvacuous :
   = [Some [5]; Some [2]; Some [4]; Some [3]; None].
 Proof. reflexivity. Qed.
 
+(* step_by(k+1) and rev().step_by(k+1) as std implements them (next() then nth(k) repeatedly,
+   next_back() then nth_back(k) repeatedly): the rows of index 0, k+1, 2(k+1), ... of the
+   rows, respectively of the reversed rows - exactly the multiples of k+1 below rows();
+   rev() in general: the mirrored calls on the reversed rows; last() = row rows-1. *)
+Theorem C19_iteration_step_by_adaptors :
+  forall (T : Type) (k : nat) (t : list (list T)),
+    map Some (somes (take_steps (SNext :: repeat (SNth k) (length t)) t))
+      = map (nth_error t) (stepby_idx k (S (length t)) 0 (length t)) /\
+    map Some (somes (take_steps (SBack :: repeat (SNthBack k) (length t)) t))
+      = map (nth_error (rev t)) (stepby_idx k (S (length t)) 0 (length t)) /\
+    (forall j, In j (stepby_idx k (S (length t)) 0 (length t)) <-> j < length t /\ exists q, j = q * (k + 1)) /\
+    (forall pat, take_steps (mirror pat) t = take_steps pat (rev t)) /\
+    hd None (take_steps [SBack] t) = nth_error t (length t - 1).
+Proof.
+  intros T k t. split; [exact (take_steps_step_by k t)|]. split; [exact (take_steps_rev_step_by k t)|].
+  split; [|split; [intros pat; exact (take_steps_mirror pat t)|exact (take_steps_last t)]].
+  intros j. split.
+  - intros H. apply stepby_idx_in in H. destruct H as [H1 [q Hq]]. split; [assumption|]. exists q. lia.
+  - intros [H1 [q Hq]]. subst j. apply (stepby_idx_complete k (S (length t)) 0 (length t) q); lia.
+Qed.
+
 (* The extracted checker used by the driver for PROPFAIL decides exactly the
-   specification relation trace_ok (DenseCheck.v): it is sound and complete. *)
+   specification relation trace_ok (DenseCheck.v): it is sound and complete.
+   idT decides identity of cell values; eqR is the element type's `==` and may be ANY
+   function (for f32 it is neither reflexive nor identity): the matrix `==` demanded by
+   trace_ok is the lifting rel_tab of eqR to tables of logical cells.  The positional
+   iteration (f_steps: nth / nth_back / skip / step_by / last / count) is part of
+   trace_ok, stated on row indices (sobs_ok: steps_idx, stepby_idx), and is decided by
+   check_steps (list surgery take_steps) inside check_C19. *)
 Theorem C19_check_sound :
-  forall (T : Type) (dflt : T) (C S : nat) (eqT : T -> T -> bool),
-    (forall x y, eqT x y = true <-> x = y) ->
-  forall pat regs ops ob fin,
-    check_C19 dflt C S eqT pat regs ops ob fin = true -> trace_ok dflt C S pat regs ops ob fin.
-Proof. intros T dflt C S eqT He pat regs ops ob fin. apply (check_C19_iff dflt C S eqT He pat ops). Qed.
+  forall (T : Type) (dflt : T) (C S size align : nat) (idT eqR : T -> T -> bool),
+    (forall x y, idT x y = true <-> x = y) ->
+  forall pat steps regs ops ob fin,
+    check_C19 dflt C S size align idT eqR pat steps regs ops ob fin = true ->
+    trace_ok dflt C S size align eqR pat steps regs ops ob fin.
+Proof. intros T dflt C S size align idT eqR He pat steps regs ops ob fin. apply (check_C19_iff dflt C S size align idT eqR He pat steps ops). Qed.
 
 Theorem C19_check_complete :
-  forall (T : Type) (dflt : T) (C S : nat) (eqT : T -> T -> bool),
-    (forall x y, eqT x y = true <-> x = y) ->
-  forall pat regs ops ob fin,
-    trace_ok dflt C S pat regs ops ob fin -> check_C19 dflt C S eqT pat regs ops ob fin = true.
-Proof. intros T dflt C S eqT He pat regs ops ob fin. apply (check_C19_iff dflt C S eqT He pat ops). Qed.
+  forall (T : Type) (dflt : T) (C S size align : nat) (idT eqR : T -> T -> bool),
+    (forall x y, idT x y = true <-> x = y) ->
+  forall pat steps regs ops ob fin,
+    trace_ok dflt C S size align eqR pat steps regs ops ob fin ->
+    check_C19 dflt C S size align idT eqR pat steps regs ops ob fin = true.
+Proof. intros T dflt C S size align idT eqR He pat steps regs ops ob fin. apply (check_C19_iff dflt C S size align idT eqR He pat steps ops). Qed.
 
-(* The instance that is extracted and run by the driver (cells as Z, compared by Z.eqb). *)
+(* the positional part alone: checker (take_steps / steps_lens) <-> index-level specification *)
+Theorem C19_check_steps_sound_complete :
+  forall (T : Type) (idT : T -> T -> bool), (forall x y, idT x y = true <-> x = y) ->
+  forall steps (t : @table T) (o : sobs T),
+    check_steps idT steps t o = true <-> sobs_ok steps t o.
+Proof. intros T idT He steps t o. exact (check_steps_spec idT He steps t o). Qed.
+
+(* an observation in which an observer panicked after the operation returned is rejected *)
+Theorem C19_check_rejects_observer_panic :
+  forall (T : Type) (dflt : T) (C S size align : nat) (idT eqR : T -> T -> bool) pat steps regs ops pre rest fin,
+    check_C19 dflt C S size align idT eqR pat steps regs ops (pre ++ ObsBroken :: rest) fin = false.
+Proof. intros. apply check_C19_broken. Qed.
+
+(* The two instances that are extracted and run by the driver: cells as Z.
+   u8 / u32 / i64: the value itself, == is identity (Z.eqb).
+   f32: the code of DenseF32.v, identity is Z.eqb on codes, == is f32c_eqb. *)
 Theorem C19_check_extracted_instance :
-  forall (C S : nat) pat regs ops ob fin,
-    check_C19 0%Z C S Z.eqb pat regs ops ob fin = true <-> trace_ok 0%Z C S pat regs ops ob fin.
-Proof. intros C S pat regs ops ob fin. apply (check_C19_iff 0%Z C S Z.eqb Z.eqb_eq pat ops). Qed.
+  forall (C S size align : nat) pat steps regs ops ob fin,
+    check_C19 0%Z C S size align Z.eqb Z.eqb pat steps regs ops ob fin = true
+    <-> trace_ok 0%Z C S size align Z.eqb pat steps regs ops ob fin.
+Proof. intros C S size align pat steps regs ops ob fin. apply (check_C19_iff 0%Z C S size align Z.eqb Z.eqb Z.eqb_eq pat steps ops). Qed.
 
-(* The specification is met by the struct-level model: in every well-formed state the
-   observations the model's own observers make (each reading the field the code
-   reads) are accepted by the property. *)
+Theorem C19_check_extracted_instance_f32 :
+  forall (C S size align : nat) pat steps regs ops ob fin,
+    check_C19 0%Z C S size align Z.eqb f32c_eqb pat steps regs ops ob fin = true
+    <-> trace_ok 0%Z C S size align f32c_eqb pat steps regs ops ob fin.
+Proof. intros C S size align pat steps regs ops ob fin. apply (check_C19_iff 0%Z C S size align Z.eqb f32c_eqb Z.eqb_eq pat steps ops). Qed.
+
+(* What "equality depends only on the logical cells" means for an element type whose == is
+   not identity: matrix == is the cell-wise lifting of the element ==.  It is identity of the
+   tables exactly when the element == is identity (u8/u32/i64); a matrix equals its own clone
+   iff every cell equals itself (no NaN); and it is a partial equivalence when the element ==
+   is (f32: symmetric, transitive; irreflexive at NaN; 0.0 == -0.0 although the cells differ). *)
+Theorem C19_eq_lifts_element_eq :
+  forall (T : Type) (eqR : T -> T -> bool),
+    ((forall x y, eqR x y = true <-> x = y) -> forall a b : @table T, rel_tab eqR a b <-> a = b) /\
+    (forall t : @table T, rel_tab eqR t t <-> Forall (Forall (fun x => eqR x x = true)) t) /\
+    ((forall x y, eqR x y = eqR y x) -> forall a b : @table T, rel_tab eqR a b -> rel_tab eqR b a) /\
+    ((forall x y z, eqR x y = true -> eqR y z = true -> eqR x z = true) ->
+       forall a b c : @table T, rel_tab eqR a b -> rel_tab eqR b c -> rel_tab eqR a c).
+Proof.
+  intros T eqR. split; [|split; [|split]].
+  - intros He a b. exact (rel_tab_leibniz eqR He a b).
+  - exact (rel_tab_refl_iff eqR).
+  - exact (rel_tab_sym eqR).
+  - exact (rel_tab_trans eqR).
+Qed.
+
+Theorem C19_f32_eq_is_partial_equivalence :
+  (forall a b, f32c_eqb a b = f32c_eqb b a) /\
+  (forall a b c, f32c_eqb a b = true -> f32c_eqb b c = true -> f32c_eqb a c = true) /\
+  (forall a, f32c_eqb a a = true <-> f32c_is_nan a = false) /\
+  f32c_eqb (F32_BASE + 2143289344) (F32_BASE + 2143289344) = false /\
+  (f32c_eqb 0 (F32_BASE + 2147483648) = true /\ 0%Z <> (F32_BASE + 2147483648)%Z).
+Proof.
+  split; [exact f32c_eqb_sym|]. split; [exact f32c_eqb_trans|]. split; [exact f32c_eqb_refl_iff|].
+  split; [exact f32c_eqb_nan_irrefl|exact f32c_eqb_zeros].
+Qed.
+
+Theorem C19_f32_eq_agrees_with_ieee_on_grid :
+  forallb (fun a => forallb (fun b => Bool.eqb (f32c_eqb a b) (IEEE.F32.eq (f32c_decode a) (f32c_decode b)))
+                            f32c_grid) f32c_grid = true.
+Proof. exact f32c_eqb_agrees_with_ieee_on_grid. Qed.
+
+(* The specification is met by the struct-level model: in every well-formed state, and
+   whatever addresses the allocator returned for the buffers (any multiples of the alignment),
+   the observations the model's own observers make (each reading the field the code reads;
+   row addresses and stride DERIVED with Rust's layout rule size_of::<Row>() = C*size rounded
+   up to the alignment) are accepted by the property: every row on an alignment boundary,
+   consecutive rows one stride apart. *)
 Theorem C19_struct_model_meets_spec :
-  forall (T : Type) (C S : nat) (eqT : T -> T -> bool),
-    (forall x y, eqT x y = true <-> x = y) -> C <= S ->
-  forall regs : list (@smat T), Forall (m_wf C S) regs ->
-    robs_ok S (map mabs regs) (m_observe S eqT regs).
-Proof. intros T C S eqT He H regs Hwf. exact (m_observe_ok C S eqT He H regs Hwf). Qed.
+  forall (T : Type) (C S size align : nat) (idT eqR : T -> T -> bool),
+    (forall x y, idT x y = true <-> x = y) ->
+    0 < size -> 0 < align -> align mod size = 0 -> S = stride size C align ->
+  forall (bases : list Z) (regs : list (@smat T)),
+    length bases = length regs ->
+    Forall (fun b => (b mod Z.of_nat align = 0)%Z) bases ->
+    Forall (m_wf C S) regs ->
+    robs_ok S size align eqR (map mabs regs) (m_observe C S size align idT eqR bases regs).
+Proof.
+  intros T C S size align idT eqR He Hs Ha Hd HS bases regs Hl Hb Hwf.
+  exact (m_observe_ok C S size align idT eqR He Hs Ha Hd HS bases regs Hl Hb Hwf).
+Qed.
 
 (* Every state the struct-level model reaches, from well-formed registers and by any
    operation sequence (hence after every prefix of it), corresponds to the tables the
    same sequence produces and is observed as the property demands. *)
 Theorem C19_every_reachable_state_meets_spec :
-  forall (T : Type) (dflt : T) (C S : nat) (eqT : T -> T -> bool),
-    (forall x y, eqT x y = true <-> x = y) -> C <= S ->
-  forall (pads : nat -> nat -> T) (ops : list (rop T)) (k : nat) (regs rs' : list (@smat T)),
+  forall (T : Type) (dflt : T) (C S size align : nat) (idT eqR : T -> T -> bool),
+    (forall x y, idT x y = true <-> x = y) ->
+    0 < size -> 0 < align -> align mod size = 0 -> S = stride size C align ->
+  forall (pads : nat -> nat -> T) (ops : list (rop T)) (k : nat) (regs rs' : list (@smat T)) (bases : list Z),
     Forall (m_wf C S) regs ->
     rs_run_pads dflt C S pads k regs ops = Ok rs' ->
+    length bases = length rs' ->
+    Forall (fun b => (b mod Z.of_nat align = 0)%Z) bases ->
     rt_run dflt C (map mabs regs) ops = Ok (map mabs rs') /\
-    robs_ok S (map mabs rs') (m_observe S eqT rs').
+    robs_ok S size align eqR (map mabs rs') (m_observe C S size align idT eqR bases rs').
 Proof.
-  intros T dflt C S eqT He H pads ops k regs rs' Hwf E.
+  intros T dflt C S size align idT eqR He Hs Ha Hd HS pads ops k regs rs' bases Hwf E Hl Hb.
+  assert (H : C <= S) by (rewrite HS; apply stride_ge; assumption).
   pose proof (rs_run_refines dflt C S H pads ops k regs Hwf) as R. rewrite E in R.
   destruct (rt_run dflt C (map mabs regs) ops) as [ts'| | |]; try contradiction.
   destruct R as [R1 [R2 _]]. subst ts'. split; [reflexivity|].
-  exact (m_observe_ok C S eqT He H rs' R2).
+  exact (m_observe_ok C S size align idT eqR He Hs Ha Hd HS bases rs' Hl Hb R2).
+Qed.
+
+(* The alignment conjunct is not satisfied by a layout rule that does not round the row size:
+   with rows of C*size bytes (no padding) the second row of a u8 x 5 matrix is off the boundary. *)
+Example C19_alignment_needs_the_rounding :
+  ((4096 + Z.of_nat (1 * (5 * 1))) mod 32 <> 0)%Z /\
+  ((4096 + Z.of_nat (row_addr 0 1 5 32 1)) mod 32 = 0)%Z.
+Proof. split; [vm_compute; discriminate|reflexivity]. Qed.
+
+(* The layout facts the model takes from dense.rs, re-extracted from the source text on every run
+   (translate/dense_layout.py -> GenDense.v): `struct Row` is repr(align(32)) on x86_64 and
+   repr(align(16)) on every other architecture, has the single array field (so its size is
+   C*size_of::<T>() rounded up to the alignment: row_bytes), and stride() is
+   size_of::<Row<T,C>>() / size_of::<T>().  With these alignments the hypotheses of the layout
+   theorems hold for the element sizes 1, 4, 8 of u8 / u32, f32 / i64. *)
+Theorem C19_model_matches_source :
+  gen_row_align_x86_64 = 32 /\ gen_row_align_other = 16 /\ gen_row_fields = 1 /\
+  gen_stride_is_sizeof_ratio = true /\
+  (forall size, In size [1; 4; 8] ->
+     0 < size /\ gen_row_align_x86_64 mod size = 0 /\ gen_row_align_other mod size = 0).
+Proof.
+  repeat split; try reflexivity;
+    destruct H as [<-|[<-|[<-|[]]]]; try reflexivity; auto with arith.
 Qed.
 
 (* Non-vacuity of the register-file theorems: three fresh matrices are well formed; a
@@ -306,7 +454,9 @@ Proof.
 Qed.
 
 Definition ex_obs (rows0 : nat) : list (obs nat) :=
-  let mk r cells := {| ob_rows := r; ob_stride := 32; ob_aligned := true; ob_ravel := true; ob_cells := cells |} in
+  let mk r cells := {| ob_rows := r; ob_stride := 32;
+                       ob_addrs := map (fun i => (4096 + 32 * Z.of_nat i)%Z) (seq 0 r);
+                       ob_ravel := true; ob_cells := cells |} in
   let z8 := repeat [0] 8 in let z2 := repeat [0] 2 in let f5 := [[1]; [2]; [3]; [4]; [5]] in
   let eqs (a b c : bool) := [true; a; b; a; true; c; b; c; true] in
   let ob m0 m1 a b c := ObsOk {| ob_regs := [m0; m1; mk 0 []]; ob_eq := eqs a b c; ob_ne := map negb (eqs a b c) |} in
@@ -315,17 +465,40 @@ Definition ex_obs (rows0 : nat) : list (obs nat) :=
    ob (mk 2 z2) (mk 5 f5) false false false;
    ob (mk rows0 f5) (mk 5 f5) true false false].
 
-Definition ex_fin : list (fobs nat) :=
-  let mk t := {| f_iter := t; f_rev := rev t; f_into := t; f_into_mut := t;
+Definition ex_steps : list istep := [SNthBack 1; SNext; SNth 1; SBack; SBack].
+
+Definition ex_sobs (last_row : option (list nat)) (t : list (list nat)) : sobs nat :=
+  {| so_walk := take_steps ex_steps t; so_walk_mut := take_steps ex_steps t; so_walk_into := take_steps ex_steps t;
+     so_lens := steps_lens ex_steps (length t);
+     so_skip := skipn 1 t; so_rev_skip := skipn 1 (rev t);
+     so_step_by := match t with [] => [] | _ => [[1]; [3]; [5]] end;
+     so_rev_step_by := match t with [] => [] | _ => [[5]; [3]; [1]] end;
+     so_mut_rev_skip := skipn 1 (rev t);
+     so_last := last_row; so_count := length t |}.
+
+Definition ex_fin' (last5 : option (list nat)) : list (fobs nat) :=
+  let mk l t := {| f_iter := t; f_rev := rev t; f_into := t; f_into_mut := t;
                  f_mixed := take_mixed_o [true; false] t; f_mixed_mut := take_mixed_o [true; false] t;
                  f_mixed_into := take_mixed_o [true; false] t; f_lens := mixed_lens [true; false] (length t);
-                 f_eqclone := true; f_eqpad := true; f_eqmod := match t with [] => true | _ => false end |} in
-  [mk [[1]; [2]; [3]; [4]; [5]]; mk [[1]; [2]; [3]; [4]; [5]]; mk []].
+                 f_eqclone := true; f_neclone := false; f_eqpad := true; f_eqpad' := true; f_nepad := false;
+                 f_eqmod := match t with [] => true | _ => false end;
+                 f_steps := ex_sobs l t |} in
+  [mk last5 [[1]; [2]; [3]; [4]; [5]]; mk last5 [[1]; [2]; [3]; [4]; [5]]; mk None []].
+Definition ex_fin := ex_fin' (Some [5]).
 
 Example C19_check_nonvacuous :
-  check_C19 0 1 32 Nat.eqb [true; false] [[]; []; []] ex_ops (ex_obs 5) (Some ex_fin) = true /\
-  check_C19 0 1 32 Nat.eqb [true; false] [[]; []; []] ex_ops (ex_obs 2) (Some ex_fin) = false.
-Proof. vm_compute. split; reflexivity. Qed.
+  check_C19 0 1 32 1 32 Nat.eqb Nat.eqb [true; false] ex_steps [[]; []; []] ex_ops (ex_obs 5) (Some ex_fin) = true /\
+  check_C19 0 1 32 1 32 Nat.eqb Nat.eqb [true; false] ex_steps [[]; []; []] ex_ops (ex_obs 2) (Some ex_fin) = false /\
+  (* last() answering the first row (nth_back copy-pasted from nth) is rejected *)
+  check_C19 0 1 32 1 32 Nat.eqb Nat.eqb [true; false] ex_steps [[]; []; []] ex_ops (ex_obs 5) (Some (ex_fin' (Some [1]))) = false /\
+  (* a row 16 bytes off the boundary is rejected *)
+  check_mobs 32 1 32 Nat.eqb [[7]; [8]]
+    {| ob_rows := 2; ob_stride := 32; ob_addrs := [4112; 4144]%Z; ob_ravel := true; ob_cells := [[7]; [8]] |} = false /\
+  (* a NaN cell: m == m.clone() must be false, and true is rejected *)
+  check_eq f32c_eqb ([[F32_BASE + 2143289344]], [[F32_BASE + 2143289344]])%Z false = true /\
+  check_eq f32c_eqb ([[F32_BASE + 2143289344]], [[F32_BASE + 2143289344]])%Z true = false /\
+  check_eq f32c_eqb ([[0]], [[F32_BASE + 2147483648]])%Z true = true.
+Proof. vm_compute. repeat split; reflexivity. Qed.
 
 (* Non-vacuity: the hypotheses are met by the matrices the code builds, and the
    layout of the element types / column counts named by the property. *)
@@ -363,12 +536,27 @@ Check C19_regfile_refines_table :
     | _, _ => False
     end.
 Check C19_check_sound :
-  forall (T : Type) (dflt : T) (C S : nat) (eqT : T -> T -> bool),
-    (forall x y, eqT x y = true <-> x = y) ->
-  forall pat regs ops ob fin,
-    check_C19 dflt C S eqT pat regs ops ob fin = true -> trace_ok dflt C S pat regs ops ob fin.
+  forall (T : Type) (dflt : T) (C S size align : nat) (idT eqR : T -> T -> bool),
+    (forall x y, idT x y = true <-> x = y) ->
+  forall pat steps regs ops ob fin,
+    check_C19 dflt C S size align idT eqR pat steps regs ops ob fin = true ->
+    trace_ok dflt C S size align eqR pat steps regs ops ob fin.
 Check C19_check_complete :
-  forall (T : Type) (dflt : T) (C S : nat) (eqT : T -> T -> bool),
-    (forall x y, eqT x y = true <-> x = y) ->
-  forall pat regs ops ob fin,
-    trace_ok dflt C S pat regs ops ob fin -> check_C19 dflt C S eqT pat regs ops ob fin = true.
+  forall (T : Type) (dflt : T) (C S size align : nat) (idT eqR : T -> T -> bool),
+    (forall x y, idT x y = true <-> x = y) ->
+  forall pat steps regs ops ob fin,
+    trace_ok dflt C S size align eqR pat steps regs ops ob fin ->
+    check_C19 dflt C S size align idT eqR pat steps regs ops ob fin = true.
+Check C19_check_steps_sound_complete :
+  forall (T : Type) (idT : T -> T -> bool), (forall x y, idT x y = true <-> x = y) ->
+  forall steps (t : @table T) (o : sobs T),
+    check_steps idT steps t o = true <-> sobs_ok steps t o.
+Check C19_struct_model_meets_spec :
+  forall (T : Type) (C S size align : nat) (idT eqR : T -> T -> bool),
+    (forall x y, idT x y = true <-> x = y) ->
+    0 < size -> 0 < align -> align mod size = 0 -> S = stride size C align ->
+  forall (bases : list Z) (regs : list (@smat T)),
+    length bases = length regs ->
+    Forall (fun b => (b mod Z.of_nat align = 0)%Z) bases ->
+    Forall (m_wf C S) regs ->
+    robs_ok S size align eqR (map mabs regs) (m_observe C S size align idT eqR bases regs).
